@@ -411,6 +411,59 @@ def check_file_copy(rec, rng, cid, tmpdir, counter):
         model.models_available.pop(key, None)
 
 
+def check_derived(rec, rng, cid, tmpdir, counter):
+    """a module derived from a shipped one (star import, own model function)
+    is loaded and registered: the shipped model is what it was before"""
+    from nanite import model
+    counter[0] += 1
+    mk = gen.SHIPPED[int(rng.integers(5))]
+    shipped = model.models_available[mk]
+    prm = gen.draw_params(rng, mk)
+    full = dict(prm, contact_point=1e-7, baseline=1e-10)
+    x = np.linspace(2e-6, -2e-6, 300)
+    y = ref.force(mk, x, full) * (1 + 0.01 * np.sin(np.arange(300)))
+    case = {"id": cid, "kind": "derived-module", "model": mk}
+
+    def observe():
+        p = gen.nanite_params(mk, full)
+        return [np.array(shipped.model(p, x)),
+                np.array(shipped.module.model(p, x)),
+                np.array(shipped.residual(p, x, y, 5e-7)),
+                np.array(shipped.module.residual(p, x, y, 5e-7)),
+                np.array(shipped.model(p, x[::-1].copy()))]
+    before = observe()
+    key = None
+    try:
+        key, md = hmodels.load_derived(
+            mk, tmpdir, "%d_%d_%d" % (cid[0], cid[1], counter[0]))
+    except BaseException as e:  # noqa
+        rec.event("derived module not accepted (%s)" % type(e).__name__)
+    try:
+        after = observe()
+        rec.event("shipped models observed before / after a derived module "
+                  "was loaded")
+        rec.evaluated(dg=("derived", mk, cid))
+        bad = [n for n, a_, b_ in zip(
+            ["model", "module.model", "residual", "module.residual",
+             "model (ascending)"], before, after)
+            if not np.array_equal(a_, b_, equal_nan=True)]
+        rec.check(not bad, "derived-module/changes-the-shipped-model",
+                  "after loading a module derived from %s the shipped "
+                  "model's %s give other values than before" % (mk, bad),
+                  case)
+        want = ref.force(mk, x, full)
+        scale = float(np.max(np.abs(want)))
+        rec.check(bool(np.max(np.abs(after[0] - want)) <= 1e-9 * scale),
+                  "derived-module/shipped-model-off-its-formula",
+                  "after loading a module derived from %s the shipped model "
+                  "deviates from its formula by %.3g of the maximum"
+                  % (mk, float(np.max(np.abs(after[0] - want))) / scale),
+                  case)
+    finally:
+        if key is not None:
+            model.models_available.pop(key, None)
+
+
 OWN_MODEL = '''
 
 def model(params, delta):
@@ -628,6 +681,7 @@ def run_all(rec, rng, cid, tmpdir, counter, with_faults):
     check_partial(rec, rng, cid, tmpdir, counter)
     check_key_reuse(rec, rng, cid, tmpdir, counter)
     check_ancillaries(rec, rng, cid)
+    check_derived(rec, rng, cid, tmpdir, counter)
 
 
 def run_shard(rec, tier, seed, shard, nshards):
